@@ -16,14 +16,14 @@ Definition fk (ts : list tk) : kind := match ts with [] => EOF | (k, _) :: _ => 
 
 Inductive toks (d : dev) : str -> list tk -> Prop :=
 | toks_nil : forall txt,
-    (forall s, fresh s txt -> exists t txt', sees d s t txt' /\ tkind t = EOF) -> toks d txt []
+    (forall s, fresh s txt -> exists t txt', sees d s t txt' /\ tkind t = EOF /\ tval t = []) -> toks d txt []
 | toks_cons : forall txt txt' k v ts, k <> EOF ->
     (forall s, fresh s txt -> exists t, sees d s t txt' /\ tkind t = k /\ tval t = v) ->
     toks d txt' ts -> toks d txt ((k, v) :: ts).
 
 Definition stream (d : dev) (s : pst) (ts : list tk) : Prop :=
   match ts with
-  | [] => exists t txt', sees d s t txt' /\ tkind t = EOF
+  | [] => exists t txt', sees d s t txt' /\ tkind t = EOF /\ tval t = []
   | (k, v) :: ts' => exists t txt', sees d s t txt' /\ tkind t = k /\ tval t = v /\ k <> EOF /\ toks d txt' ts'
   end.
 
@@ -43,13 +43,13 @@ Qed.
 
 Lemma peek_stream : forall d s ts, stream d s ts ->
   exists t s1, peek d s = (t, s1) /\ tkind t = fk ts /\ stream d s1 ts
-               /\ match ts with (_, v) :: _ => tval t = v | [] => True end.
+               /\ match ts with (_, v) :: _ => tval t = v | [] => tval t = [] end.
 Proof.
   intros d s [|[k v] ts] H; cbn in H.
-  - destruct H as [t [txt' [H Hk]]]. destruct (peek_sees d s t txt' H) as [P1 [P2 _]].
+  - destruct H as [t [txt' [H [Hk Hv0]]]]. destruct (peek_sees d s t txt' H) as [P1 [P2 _]].
     destruct (peek d s) as [t1 s1]. cbn [fst snd] in P1, P2. subst t1. exists t, s1.
-    split; [reflexivity|]. split; [exact Hk|]. split; [|exact I].
-    exists t, txt'. split; [exact (holding_sees d s1 t txt' (proj1 H) P2)|exact Hk].
+    split; [reflexivity|]. split; [exact Hk|]. split; [|exact Hv0].
+    exists t, txt'. split; [exact (holding_sees d s1 t txt' (proj1 H) P2)|auto].
   - destruct H as [t [txt' [H [Hk [Hv [Hn Ht]]]]]]. destruct (peek_sees d s t txt' H) as [P1 [P2 _]].
     destruct (peek d s) as [t1 s1]. cbn [fst snd] in P1, P2. subst t1. exists t, s1.
     split; [reflexivity|]. split; [exact Hk|]. split; [|exact Hv].
@@ -74,7 +74,7 @@ Section Ops.
 
   Lemma s_peek : forall s ts, stream d s ts ->
     exists t s1, run d Peek F s = (t, s1) /\ tkind t = fk ts /\ stream d s1 ts
-                 /\ match ts with (_, v) :: _ => tval t = v | [] => True end.
+                 /\ match ts with (_, v) :: _ => tval t = v | [] => tval t = [] end.
   Proof. intros. cbn [run]. apply peek_stream. assumption. Qed.
 
   Lemma s_next : forall s k v ts, stream d s ((k, v) :: ts) ->
@@ -271,7 +271,7 @@ Qed.
 Lemma toks_ign : forall d ign X ts, Forall ign_char ign -> toks d X ts -> toks d (ign ++ X) ts.
 Proof.
   intros d ign X ts Hi H. inversion H as [txt0 H0|txt0 txt' k v ts' Hk H0 Ht]; subst.
-  - apply toks_nil. intros s Hs. apply (fresh_ign d ign X s (fun t _ => tkind t = EOF) Hi Hs). exact H0.
+  - apply toks_nil. intros s Hs. apply (fresh_ign d ign X s (fun t _ => tkind t = EOF /\ tval t = []) Hi Hs). exact H0.
   - apply (toks_cons d _ txt' k v ts' Hk); [|exact Ht]. intros s Hs.
     destruct (fresh_ign d ign X s (fun t tx => tx = txt' /\ tkind t = k /\ tval t = v) Hi Hs) as [t [tx [A [-> [B C]]]]].
     + intros s0 Hs0. destruct (H0 s0 Hs0) as [t [A [B C]]]. exists t, txt'. auto.
@@ -281,7 +281,7 @@ Qed.
 Lemma toks_eof : forall d, toks d [] [].
 Proof.
   intro d. apply toks_nil. intros s [He [Hp [Hl Hr]]].
-  exists (mkTok EOF [] (endR (plx s)) (endR (plx s)) (line (plx s)) (endR (plx s) - lsr (plx s) + 1)%Z), []. split; [|reflexivity].
+  exists (mkTok EOF [] (endR (plx s)) (endR (plx s)) (line (plx s)) (endR (plx s) - lsr (plx s) + 1)%Z), []. split; [|split; reflexivity].
   split; [reflexivity|]. left. eexists. split; [exact He|]. split; [exact Hp|]. split; [exact Hl|].
   unfold readToken. rewrite Hr. cbn [ws]. unfold mk_tok. split; reflexivity.
 Qed.
